@@ -114,7 +114,7 @@ def roundtrip_part(ctx: vlib.Ctx):
     ctx.coqchk(["VerifProps.C01_roundtrip", "VerifProps.C01_tz"])
     ctx.trusted.append("TyModel.v (cp/pk, cu/uk) tied by vm_compute correspondence; stdlib render/parse pairs are oracle functions whose "
                        "round-trip law is a hypothesis of the theorem restricted to the values present (atoms_ok)")
-    ctx.assumptions.append("unions are decided under C11. Abstract / special collection classes (Sequence, Mapping, Deque, OrderedDict, DefaultDict (factory not part of the value), "
+    ctx.assumptions.append("unions are decided under C11 (Literal types of int/str/bool/None constants are inside the Coq grammar; enum-member and bytes literals are not). Abstract / special collection classes (Sequence, Mapping, Deque, OrderedDict, DefaultDict (factory not part of the value), "
                            "MappingProxyType, Counter, ChainMap) and leaf/enum/bytes-typed mapping keys (under vals_ok: wire forms of the keys present pairwise distinct) are inside the Coq grammar. NamedTuple (as_list form), "
                            "TypedDict (total / total=False / Required / NotRequired) and tuples with an unpacked segment are inside the Coq grammar (theorems + correspondence); the round-trip "
                            "theorem states = on TypedDict values whose keys are in the decoder's order (conf_ord), the oracle compares with == on values "
